@@ -126,6 +126,107 @@ idx_f = z3.Function("idx", z3.IntSort(), z3.IntSort())
 cls_f = z3.Function("cls", Ref, z3.IntSort())
 
 
+# ------------------------------------------------------------------ heap maps
+class ZMap(object):
+    """heap map backed by a z3 array term"""
+
+    __slots__ = ("arr",)
+
+    def __init__(self, arr):
+        self.arr = arr
+
+    def select(self, t):
+        return z3.Select(self.arr, t)
+
+    def store(self, t, v):
+        return ZMap(z3.Store(self.arr, t, v))
+
+    def sort(self):
+        return self.arr.sort()
+
+    def range(self):
+        return self.arr.sort().range()
+
+
+class HMap(object):
+    """havocked map:  x |-> cond(x) ? fresh[x] : base[x]   (frame built into the havoc; stays ground)"""
+
+    __slots__ = ("base", "fresh", "cond")
+
+    def __init__(self, base, fresh, cond):
+        self.base, self.fresh, self.cond = base, fresh, cond
+
+    def select(self, t):
+        c = self.cond(t)
+        if c is True:
+            return z3.Select(self.fresh, t)
+        if c is False:
+            return self.base.select(t)
+        return z3.If(c, z3.Select(self.fresh, t), self.base.select(t))
+
+    def store(self, t, v):
+        return SMap(self, t, v)
+
+    def range(self):
+        return self.base.range()
+
+
+class SMap(object):
+    __slots__ = ("base", "key", "val")
+
+    def __init__(self, base, key, val):
+        self.base, self.key, self.val = base, key, val
+
+    def select(self, t):
+        if z3.eq(t, self.key):
+            return self.val
+        return z3.If(t == self.key, self.val, self.base.select(t))
+
+    def store(self, t, v):
+        if z3.eq(t, self.key):
+            return SMap(self.base, t, v)
+        return SMap(self, t, v)
+
+    def range(self):
+        return self.base.range()
+
+
+class IMap(object):
+    """c ? a : b"""
+
+    __slots__ = ("c", "a", "b")
+
+    def __init__(self, c, a, b):
+        self.c, self.a, self.b = c, a, b
+
+    def select(self, t):
+        return z3.If(self.c, self.a.select(t), self.b.select(t))
+
+    def store(self, t, v):
+        return SMap(self, t, v)
+
+    def range(self):
+        return self.a.range()
+
+
+def map_same(a, b):
+    """structural identity (no solver)"""
+    if a is b:
+        return True
+    if isinstance(a, ZMap) and isinstance(b, ZMap):
+        return z3.eq(a.arr, b.arr)
+    return False
+
+
+def map_equal(a, b, witness=None):
+    """formula: the two maps are equal (extensionally).  z3 arrays: array equality; otherwise at a
+    fresh skolem reference (valid as a *goal* only)."""
+    if isinstance(a, ZMap) and isinstance(b, ZMap):
+        return a.arr == b.arr
+    x = witness if witness is not None else z3.Const(fresh_name("xfr"), Ref)
+    return a.select(x) == b.select(x)
+
+
 class Schema(object):
     def __init__(self):
         self.fields = {}  # field -> type
@@ -178,7 +279,7 @@ class Heap(object):
     def _arr(self, key, rng):
         a = self.maps.get(key)
         if a is None:
-            a = z3.Const("%s@%s" % (key, self.tag), z3.ArraySort(Ref, rng))
+            a = ZMap(z3.Const("%s@%s" % (key, self.tag), z3.ArraySort(Ref, rng)))
             self.maps[key] = a
         return a
 
@@ -216,24 +317,24 @@ class Heap(object):
             raise KeyError("field %r not in schema" % field)
         term = ref.term if isinstance(ref, RefV) else ref
         if t == "float":
-            return Num(z3.Select(self.arr(field), term), z3.Select(self.nanarr(field), term), False)
+            return Num(self.arr(field).select(term), self.nanarr(field).select(term), False)
         if t in ("int", "date"):
-            return Num(z3.Select(self.arr(field), term), False, True)
+            return Num(self.arr(field).select(term), False, True)
         if t == "bool":
-            return z3.Select(self.arr(field), term)
+            return self.arr(field).select(term)
         if t.startswith("ref"):
             cls = t.split(":", 1)[1] if ":" in t else "Node"
-            return RefV(z3.Select(self.arr(field), term), cls)
+            return RefV(self.arr(field).select(term), cls)
         if t.startswith("optref"):
             raise NotImplementedError
         if t == "str":
-            return StrV(z3.Select(self.arr(field), term))
+            return StrV(self.arr(field).select(term))
         if t == "fn":
-            return FnV(z3.Select(self.arr(field), term))
+            return FnV(self.arr(field).select(term))
         if t == "hist":
             return HistV(RefV(term, None), field)
         if t == "opthist":
-            return Opt(z3.Select(self.nonearr(field), term), HistV(RefV(term, None), field))
+            return Opt(self.nonearr(field).select(term), HistV(RefV(term, None), field))
         if t == "frame":
             return FrameV(RefV(term, None), field)
         if t == "list":
@@ -249,30 +350,30 @@ class Heap(object):
         term = ref.term if isinstance(ref, RefV) else ref
         if t == "float":
             v = Num.lift(val)
-            self.maps[field] = z3.Store(self.arr(field), term, v.real())
+            self.maps[field] = self.arr(field).store(term, v.real())
             nk = field + "#nan"
-            self.maps[nk] = z3.Store(self.nanarr(field), term, z3.BoolVal(v.nan) if isinstance(v.nan, bool) else v.nan)
+            self.maps[nk] = self.nanarr(field).store(term, z3.BoolVal(v.nan) if isinstance(v.nan, bool) else v.nan)
             return
         if t in ("int", "date"):
             v = Num.lift(val)
             if not v.is_int:
                 raise TypeError("storing non-int into %s" % field)
-            self.maps[field] = z3.Store(self.arr(field), term, v.r)
+            self.maps[field] = self.arr(field).store(term, v.r)
             return
         if t == "bool":
             b = z3.BoolVal(val) if isinstance(val, bool) else val
             if isinstance(b, Num):
                 b = b.r != 0
-            self.maps[field] = z3.Store(self.arr(field), term, b)
+            self.maps[field] = self.arr(field).store(term, b)
             return
         if t.startswith("ref"):
-            self.maps[field] = z3.Store(self.arr(field), term, val.term if isinstance(val, RefV) else val)
+            self.maps[field] = self.arr(field).store(term, val.term if isinstance(val, RefV) else val)
             return
         if t == "fn":
-            self.maps[field] = z3.Store(self.arr(field), term, val.term)
+            self.maps[field] = self.arr(field).store(term, val.term)
             return
         if t == "str":
-            self.maps[field] = z3.Store(self.arr(field), term, val.term)
+            self.maps[field] = self.arr(field).store(term, val.term)
             return
         raise ValueError("cannot set field %s of type %s" % (field, t))
 
@@ -280,8 +381,8 @@ class Heap(object):
     def hist_get(self, owner, field, i):
         term = owner.term if isinstance(owner, RefV) else owner
         i = Num.lift(i)
-        buf = z3.Select(self.arr(field), term)
-        nbuf = z3.Select(self.nanarr(field), term)
+        buf = self.arr(field).select(term)
+        nbuf = self.nanarr(field).select(term)
         return Num(z3.Select(buf, i.r), z3.Select(nbuf, i.r), False)
 
     def hist_set(self, owner, field, i, val):
@@ -290,43 +391,65 @@ class Heap(object):
         v = Num.lift(val)
         a = self.arr(field)
         na = self.nanarr(field)
-        self.maps[field] = z3.Store(a, term, z3.Store(z3.Select(a, term), i.r, v.real()))
-        self.maps[field + "#nan"] = z3.Store(na, term, z3.Store(z3.Select(na, term), i.r, z3.BoolVal(v.nan) if isinstance(v.nan, bool) else v.nan))
+        self.maps[field] = a.store(term, z3.Store(a.select(term), i.r, v.real()))
+        self.maps[field + "#nan"] = na.store(term, z3.Store(na.select(term), i.r, z3.BoolVal(v.nan) if isinstance(v.nan, bool) else v.nan))
 
     def hist_fill(self, owner, field, val):
         term = owner.term if isinstance(owner, RefV) else owner
         v = Num.lift(val)
         a = self.arr(field)
         na = self.nanarr(field)
-        self.maps[field] = z3.Store(a, term, z3.K(z3.IntSort(), v.real()))
-        self.maps[field + "#nan"] = z3.Store(na, term, z3.K(z3.IntSort(), z3.BoolVal(v.nan) if isinstance(v.nan, bool) else v.nan))
+        self.maps[field] = a.store(term, z3.K(z3.IntSort(), v.real()))
+        self.maps[field + "#nan"] = na.store(term, z3.K(z3.IntSort(), z3.BoolVal(v.nan) if isinstance(v.nan, bool) else v.nan))
 
     # ---- lists (children)
     def list_len(self, owner, field):
         term = owner.term if isinstance(owner, RefV) else owner
-        return Num(z3.Select(self.lenarr(field), term), False, True)
+        return Num(self.lenarr(field).select(term), False, True)
 
     def list_at(self, owner, field, i, cls="Node"):
         term = owner.term if isinstance(owner, RefV) else owner
         i = Num.lift(i)
-        return RefV(z3.Select(z3.Select(self.arr(field), term), i.r), cls)
+        return RefV(z3.Select(self.arr(field).select(term), i.r), cls)
 
     def dict_has(self, owner, field, key):
         term = owner.term if isinstance(owner, RefV) else owner
-        return z3.Select(z3.Select(self.hasarr(field), term), key.term)
+        return z3.Select(self.hasarr(field).select(term), key.term)
 
     def dict_at(self, owner, field, key, cls="Node"):
         term = owner.term if isinstance(owner, RefV) else owner
-        return RefV(z3.Select(z3.Select(self.arr(field), term), key.term), cls)
+        return RefV(z3.Select(self.arr(field).select(term), key.term), cls)
 
     def keys(self):
         return list(self.maps.keys())
 
-    def havoc(self, key, name=None):
+    def havoc(self, key, name=None, cond=None):
+        """replace map `key` by a fresh one; with cond(x): only at references satisfying cond"""
         a = self.maps.get(key)
         if a is None:
-            return
-        self.maps[key] = z3.Const(fresh_name((name or key) + "@h"), a.sort())
+            a = self.ensure(key)
+        fresh = z3.Const(fresh_name((name or key) + "@h"), z3.ArraySort(Ref, a.range()))
+        if cond is None:
+            self.maps[key] = ZMap(fresh)
+        else:
+            self.maps[key] = HMap(a, fresh, cond)
+
+    def ensure(self, key):
+        """create the base map for a heap key (field or field#suffix)"""
+        if key in self.maps:
+            return self.maps[key]
+        if "#" in key:
+            f, suf = key.split("#", 1)
+            if suf == "nan":
+                return self.nanarr(f)
+            if suf == "len":
+                return self.lenarr(f)
+            if suf == "has":
+                return self.hasarr(f)
+            if suf == "none":
+                return self.nonearr(f)
+            raise KeyError(key)
+        return self.arr(key)
 
 
 def heap_keys_union(h1, h2):
